@@ -838,8 +838,8 @@ fn resolve_builtin_identifier<I: Interrupt>(
 			("volume".into(), eval_box!("1.08321e12 km^3")),
 		]),
 		"today" => Value::Date(crate::date::Date::today(context)?),
-		"tomorrow" => Value::Date(crate::date::Date::today(context)?.next()),
-		"yesterday" => Value::Date(crate::date::Date::today(context)?.prev()),
+		"tomorrow" => Value::Date(crate::date::Date::today(context)?.next()?),
+		"yesterday" => Value::Date(crate::date::Date::today(context)?.prev()?),
 		"trans" => Value::String(Cow::Borrowed("🏳️‍⚧️")),
 		_ => return Err(FendError::IdentifierNotFound(ident.clone())),
 	})
